@@ -544,6 +544,12 @@ func newSSAStyleFromString(content string, format map[int]string) (s *ssaStyle, 
 			return
 		}
 
+		// An empty item means the style doesn't set the attribute (this is what the writer produces when styles
+		// don't share the same attributes)
+		if item == "" {
+			continue
+		}
+
 		// Switch on attribute name
 		switch attr {
 		// Bool
